@@ -102,12 +102,16 @@ def a_ser(a):
     raise ValueError
 
 
+def vname(loc):
+    return VARS[loc][0] if loc < len(VARS) else "c%d" % loc
+
+
 def render(a, env, sty, pnames=None):
     """Cb text of an access expression. sty: dict with 'arrow' (True: p->m, False: (*p).m), 'ivar' (index through
     the int variables i0..i2 instead of literals)."""
     k = a[0]
     if k == "v":
-        return a[1]
+        return vname(a[1])
     if k == "par":
         return pnames[a[1]]
     if k == "d":
@@ -209,7 +213,7 @@ class Shadow:
     def resolve(self, a, fr):
         k = a[0]
         if k == "v":
-            return (a[1] if isinstance(a[1], int) else VLOC_ALL(self, a[1]), ())
+            return (a[1], ())
         if k == "par":
             return fr[a[1]]
         if k == "f":
@@ -259,8 +263,11 @@ class Shadow:
                 elif md == "pval":          # value of a pointer variable passed by value
                     self.h.append(self.read(self.resolve(prm["arg"], [])))
                     fr.append((len(self.h) - 1, ()))
-                elif md == "ref" or not self.mech:
+                elif md == "ref":
                     fr.append(self.resolve(prm["arg"], []))
+                elif not self.mech:          # arr / self in Spec: the argument's cell (a dummy location keeps numbering equal)
+                    fr.append(self.resolve(prm["arg"], []))
+                    self.h.append(0)
                 else:                        # arr / self in Mech: copy in
                     c = self.resolve(prm["arg"], [])
                     self.h.append(self.read(c))
@@ -283,10 +290,6 @@ class Shadow:
                     self.write(self.resolve(d, []), rv)
         else:
             raise Bad("op " + k)
-
-
-def VLOC_ALL(sh, name):
-    raise Bad("unresolved name " + str(name))
 
 
 def shadow_run(case, mech):
